@@ -396,8 +396,11 @@ impl Mempool {
             if let TransactionType::GoldenTicket = transaction.transaction_type {
                 let gt = GoldenTicket::deserialize_from_net(&transaction.data);
                 self.golden_tickets.remove(&gt.target);
-            } else {
-                self.transactions.remove(&transaction.signature);
+            } else if let Some(removed) = self.transactions.remove(&transaction.signature) {
+                // release the inputs reserved by the removed transaction
+                for input in removed.from.iter() {
+                    self.utxo_map.remove(&input.utxoset_key);
+                }
             }
         }
 
